@@ -29,13 +29,14 @@ def _write(spec, name):
 
 
 def evaluate_subprocess(spec):
-    """fresh processes: hash seeds, working directories, environments"""
+    """fresh processes: hash seeds, working directories, environments, numbers of usable CPUs"""
     b, wd, inpath, klpath = _write(spec, "det")
     digests = []
     sig, detail = None, ""
     runs = [("0", wd, {}), ("1", "/", {"TZ": "Pacific/Kiritimati", "LANG": "tr_TR.UTF-8", "COLUMNS": "20", "PYTHONOPTIMIZE": str(1 + spec["hs"][0] % 2)}),
             (str(spec["hs"][0]), os.path.dirname(wd), {"HOME": "/nonexistent", "TZ": "UTC", "PYTHONIOENCODING": "ascii"}),
             (str(spec["hs"][1]), wd, {"LC_ALL": "POSIX", "PYTHONUTF8": "0", "PYTHONCOERCECLOCALE": "0", "PYTHONDONTWRITEBYTECODE": "1"})]
+    cpus = [None, 2, 1, 3]          # ... and different numbers of usable CPUs
     for i, (hs, cwd, env) in enumerate(runs):
         out = os.path.join(wd, f"det{i}.pcapng")
         if os.path.exists(out):
@@ -44,7 +45,7 @@ def evaluate_subprocess(spec):
             with open(out, "wb") as f:
                 f.write(b"\x0a\x0d\x0d\x0a" + bytes(150000 + i))
         argv = scenario.argv_for(spec, inpath, klpath, out)
-        r = runner.run_subprocess(argv, cwd=cwd, env=env, hashseed=hs)
+        r = runner.run_subprocess(argv, cwd=cwd, env=env, hashseed=hs, cpus=cpus[i])
         if r.code != 0 or r.exc:
             sig, detail = f"subprocess run failed: {r.exc_sig or r.code}", (r.stderr or "")[-300:]
             break
@@ -132,9 +133,12 @@ def _result(spec, b, sig, detail, evals, mode):
 @st.composite
 def spec_strategy(draw):
     n = draw(st.integers(1, 3))
+    many_tls = draw(st.integers(0, 3)) == 0        # several TLS sessions (more than a process restricted to 2-3 CPUs has workers for)
+    if many_tls:
+        n = draw(st.integers(4, 6))
     conns = []
     for i in range(n):
-        k = draw(st.sampled_from(["quic", "quic", "tls"]))
+        k = "tls" if many_tls else draw(st.sampled_from(["quic", "quic", "tls"]))
         ep = strategies.endpoints(idx=i, sports=(443, 443, 8443))
         if k == "tls":
             c = draw(strategies.tls_conn(max_records=4, max_len=200, ep=ep, delivery=strategies.tcp_delivery(modes=("rec", "cuts"), wrap=False)))
